@@ -10,6 +10,7 @@ the parser between pieces exactly as the service loops do.
     splits(data, k)       every way of cutting data into <= k non-empty pieces
     count_splits(n, k)    how many there are (closed form, used to cross-check counters)
     shard(iterable, i, n) deterministic round-robin sharding of an enumeration
+    idle_patterns(npieces, counts, max_dev)  idle service passes (parser resumed with NO new bytes) per gap
     feed(buf, pieces, step)          extend a bytearray piece by piece, step() after each
     drive(parsent, pieces, ...)      the same for ioflo Parsent-like objects (.msg/.parse/.parser)
     drive_gen(raw, gen, pieces, ...) the same for a bare ioflo parse generator over a bytearray
@@ -73,10 +74,33 @@ def shard(iterable, index, nshards):
             yield x
 
 
-def show(pieces, limit=200):
-    """Human-readable schedule: pieces separated by '|' (latin-1, repr-escaped)."""
-    s = "|".join(repr(bytes(p))[2:-1] for p in pieces)
+def show(pieces, limit=200, gaps=None):
+    """Human-readable schedule: pieces separated by '|' (latin-1, repr-escaped); idle service
+    passes between two pieces are shown as '|~|' (one '~' per pass)."""
+    parts = [repr(bytes(p))[2:-1] for p in pieces]
+    if gaps and any(gaps):
+        s = parts[0]
+        for i, part in enumerate(parts[1:]):
+            n = gaps[i] if i < len(gaps) else 0
+            s += ("|" + "~" * n + "|" if n else "|") + part
+    else:
+        s = "|".join(parts)
     return s if len(s) <= limit else s[:limit] + "..."
+
+
+def idle_patterns(npieces, counts=(0, 1), max_dev=None):
+    """Idle-pass schedules for a delivery in npieces receives: one tuple per schedule giving, for
+    each of the npieces-1 gaps, how many times the parser is resumed with no new bytes before the
+    next piece arrives (a service loop polls whether or not bytes arrived).  counts[0] is the
+    default; at most max_dev gaps deviate from it (None: every combination).  Default-first order."""
+    gaps = max(0, npieces - 1)
+    out = []
+    for t in itertools.product(range(len(counts)), repeat=gaps):
+        dev = sum(1 for i in t if i)
+        if max_dev is None or dev <= max_dev:
+            out.append((dev, t))
+    out.sort()
+    return [tuple(counts[i] for i in t) for dev, t in out]
 
 
 def feed(buf, pieces, step):
@@ -90,14 +114,15 @@ def feed(buf, pieces, step):
     return n
 
 
-def drive(parsent, pieces, close=False, idle=2, done=None):
+def drive(parsent, pieces, close=False, idle=2, done=None, gaps=None):
     """Deliver pieces into an ioflo Parsent-like object: extend .msg, call .parse() after
     every piece (the way Valet.serviceReqs / Patron.serviceResponse do).  Delivery stops as
     soon as the parser finishes (parsent.parser is None, or done(parsent) is true): what was
     not delivered yet is appended to .msg *without* parsing, so the caller can look at the
     unconsumed remainder.  If close: after the last piece call parsent.close() and parse
     again (peer closed the connection).  `idle` extra parse() calls with no new bytes are
-    made while the parser is still unfinished (a service loop keeps polling).
+    made while the parser is still unfinished (a service loop keeps polling).  gaps[i] idle
+    parse() calls are made between piece i and piece i+1 (see idle_patterns).
     Returns Drive(steps, finished, exc, delivered): exc is the exception parse() raised (or None),
     delivered the number of bytes that had been received when the parser finished (or raised)."""
     steps = 0
@@ -116,6 +141,15 @@ def drive(parsent, pieces, close=False, idle=2, done=None):
             if done(parsent):
                 finished = True
                 break
+            if gaps and i < len(pieces) - 1 and i < len(gaps):
+                for _ in range(gaps[i]):
+                    steps += 1
+                    parsent.parse()
+                    if done(parsent):
+                        finished = True
+                        break
+                if finished:
+                    break
         if not finished:
             i = len(pieces)
             for _ in range(idle):
